@@ -184,7 +184,7 @@ pub fn check_nonbinding(h: &History) -> CaseResult {
 pub fn run_trackers(env: &Env, rep: &Report) {
     use crate::props::c01::{iso_check, KINDS};
     let pool = IsoPool::new(&env.prop, "binding", std::time::Duration::from_secs(120));
-    let n = env.tier.pick(400, 10_000);
+    let n = env.tier.pick(1_500, 20_000);
     for kind in KINDS {
         let strat = move || (history(kind, false, 40), table()).prop_map(|(mut h, t)| {
             h.cfg.constraints = Some(t);
@@ -193,7 +193,7 @@ pub fn run_trackers(env: &Env, rep: &Report) {
         par_generated(rep, "binding", strat, n, workers(), iso_check(&pool, rep));
     }
     let pool2 = IsoPool::new(&env.prop, "nonbinding", std::time::Duration::from_secs(120));
-    let n = env.tier.pick(250, 6_000);
+    let n = env.tier.pick(1_000, 12_000);
     for kind in KINDS {
         let strat = move || (history_opts(kind, false, 40, false), table()).prop_map(|(mut h, t)| {
             h.cfg.constraints = Some(t);
